@@ -315,7 +315,13 @@ func MakeTLSConfig(configs []*Config) (*tls.Config, error) {
 		// if an existing config with this hostname was already
 		// configured, then they must be identical (or at least
 		// compatible), otherwise that is a configuration error
-		if otherConfig, ok := configMap[cfg.Hostname]; ok {
+		// (looked up under the key it will be stored under: 0.0.0.0 and
+		// :: are filed under the empty name, see below)
+		key := cfg.Hostname
+		if key == "0.0.0.0" || key == "::" {
+			key = ""
+		}
+		if otherConfig, ok := configMap[key]; ok {
 			if err := assertConfigsCompatible(cfg, otherConfig); err != nil {
 				return nil, fmt.Errorf("incompatible TLS configurations for the same SNI "+
 					"name (%s) on the same listener: %v",
@@ -329,11 +335,7 @@ func MakeTLSConfig(configs []*Config) (*tls.Config, error) {
 		// the same); during TLS handshakes, configs are
 		// loaded based on the hostname pattern according
 		// to client's ServerName (SNI) value
-		if cfg.Hostname == "0.0.0.0" || cfg.Hostname == "::" {
-			configMap[""] = cfg
-		} else {
-			configMap[cfg.Hostname] = cfg
-		}
+		configMap[key] = cfg
 	}
 
 	// Is TLS disabled? By now, we know that all
